@@ -25,7 +25,7 @@ def plan(tier, seed):
               "over-weighted (setoption / isready / ucinewgame / Clear Hash / Hash resize / ponderhit / stop / quit / EOF while "
               "helper threads run), every fifth session a tablebase hand-over (a 3-man root searched without limit so that the on-demand table "
               "is generated, then 1..3 searches from roots with one more, capturable man, Threads 2..4), every fifth a worker-tree churn "
-              "(Threads 6..8, 3..7 short searches with Threads / Strength / UCI_LimitStrength changes in between, so that the two-level "
+              "(Threads 6..8, 12 or 16; 4..10 short searches with Threads / Strength / UCI_LimitStrength changes in between, so that the two-level "
               "helper tree is torn down and rebuilt), "
               "executed on the ThreadSanitizer build of the engine; plus in-process ProofGameFilter.filterFens "
               "with 2..16 workers over 4..N FENs from random games (this harness is itself TSan-instrumented). Non-trivial = session "
